@@ -249,7 +249,13 @@ def plan(tier, seed):
                 jobs.append((iso, strat, "meat", "dev", (1, 2)))       # k<=1, ample default
                 jobs.append((iso, strat, "meat", "dev", (1, 0)))       # k<=1, zero default
             jobs.append((iso, "reduced", "conversion", "const", 12))
-        bound = {"countries": sel, "constant_series": "5x5 levels x 36 months", "deviations": "k<=1 over %d months, 3x3 menu, defaults ample and zero" % DEV_MONTHS}
+        # every other country's herd table too (fractional herds, missing species, extreme ratios), on a shorter menu
+        for iso in isos:
+            if iso not in sel:
+                for strat in STRATEGIES:
+                    jobs.append((iso, strat, "meat", "const", 12))
+        bound = {"countries": sel, "constant_series": "5x5 levels x 36 months", "deviations": "k<=1 over %d months, 3x3 menu, defaults ample and zero" % DEV_MONTHS,
+                 "all_other_countries": "%d countries x 3 strategies x 5x5 constant levels x 12 months" % (len(isos) - len(sel))}
     else:
         dev_c = fixed + common.rotate(rest, 0, 9)
         for iso in isos:
